@@ -141,9 +141,21 @@ fn target_json(t: &str, jail: &Path) -> Value {
 }
 
 fn run_extract(j: &Jail, bytes: &[u8]) -> (String, Vec<Value>, Vec<Value>) {
+    run_extract_spelled(j, bytes, 0)
+}
+
+/// `spell`: how the caller writes the target directory <jail>/t (0: plainly; 1: through "out/.."; 2: with a "."
+/// component; 3: with a trailing slash)
+fn run_extract_spelled(j: &Jail, bytes: &[u8], spell: usize) -> (String, Vec<Value>, Vec<Value>) {
     let dest = j.jail.join("t");
+    let spelled = PathBuf::from(match spell % 4 {
+        1 => format!("{}/out/../t", j.jail.display()),
+        2 => format!("{}/./t", j.jail.display()),
+        3 => format!("{}/t/", j.jail.display()),
+        _ => format!("{}/t", j.jail.display()),
+    });
     let before = snapshot(&j.top);
-    let outcome = match guarded(|| -> Result<(), rpm::Error> { Package::parse(&mut &bytes[..])?.extract(&dest) }) {
+    let outcome = match guarded(|| -> Result<(), rpm::Error> { Package::parse(&mut &bytes[..])?.extract(&spelled) }) {
         Ok(Ok(())) => "ok".to_string(),
         Ok(Err(_)) => "err".to_string(),
         Err(m) => format!("panic: {m}"),
@@ -217,7 +229,7 @@ pub fn run(args: &Args) {
         let mut bytes = vec![];
         p.write(&mut Plain(&mut bytes)).unwrap();
         let j = Jail::new(&format!("b{i}"));
-        let (outcome, outside, inside) = run_extract(&j, &bytes);
+        let (outcome, outside, inside) = run_extract_spelled(&j, &bytes, i as usize);
         let want: Vec<Value> = cfg.files.iter().map(|f| {
             let path: Vec<String> = std::iter::once("t".to_string()).chain(gen_::installed_path(&f.dest).split('/').filter(|c| !c.is_empty()).map(|c| c.to_string())).collect();
             let mode = gen_::expected_mode(f) as u16;
